@@ -41,6 +41,9 @@ type Part struct {
 	// "// NAMEOF obj path.Name = <text>" / "// NAMEOF ref path.Name = <text>".
 	Names bool `json:"names,omitempty"`
 	Flip  bool `json:"flip,omitempty"`
+	// FieldDocs: one comment line per field of the struct being generated with what Context.Doc reports for
+	// the field object (tags in key order, doc lines) - what runtimedoc and the validators do per field.
+	FieldDocs bool `json:"field_docs,omitempty"`
 	// Bulk: a valid declaration of about Bulk KiB (a generated table), named after Text.
 	Bulk int `json:"bulk,omitempty"`
 }
